@@ -83,11 +83,15 @@ Definition is_warning (c : content) : bool :=
   | _ => false
   end.
 
-(* [est]: the handshake has completed.  classifyReadLoopError: a fatal alert or close_notify closes; a
-   NON-fatal alert is handed to Read once established and IGNORED while the handshake is running
-   (readLoopContinue) - nobody reads c.decrypted (capacity 1) before establishment.  Rec/Recv.v has no
-   establishment flag: its OErr for a warning alert is the established behaviour. *)
+(* [est]: the handshake has completed.
+   conn.go handleRecordContent (d95e20d): once established an UNPROTECTED (epoch 0) alert - fatal, close_notify
+   or warning - is discarded: no mark, no reply, no close, no Read error (Recv.unprotected_alert / Recv.recv_est).
+   conn.go classifyReadLoopError: a fatal alert or close_notify closes; a NON-fatal alert is handed to Read
+   once established (only a protected one gets that far) and IGNORED while the handshake is running
+   (readLoopContinue) - nobody reads c.decrypted (capacity 1) before establishment.  Rec/Recv.v's [recv] is the
+   behaviour while the handshake runs, except that its OErr for a warning alert is the established one. *)
 Definition recv_conn (W : nat) (lease full est : bool) (s : rstate) (w : wire) : rstate * list out :=
+  if est && unprotected_alert w then (s, []) else
   let '(s', os) := recv_fb W lease full s w in
   if negb est && is_warning (disp_content w) then (s', filter (fun o => negb (is_err o)) os) else (s', os).
 
